@@ -13,7 +13,9 @@ The tuples enumerated are run-time values of recursive Prolog code and are not d
 import os
 import sys
 
-from .core import AnchorLost, REPO
+import re
+
+from .core import AnchorLost, REPO, walk
 from . import c22
 
 sys.path.insert(0, os.path.dirname(os.path.dirname(os.path.abspath(__file__))))
@@ -130,3 +132,35 @@ def run(ctx, R):
     R.ob("C49:length/2:clause-order-work-domain-type", kinds == ["work", "domain", "type"],
          "length/2's clauses are %s: expected the working clause, then `integer(N), !, domain_error(..)`, then the type error (a non-integer N must not reach the domain error, an integer "
          "N must not reach the type error)" % kinds, "src/lib/lists.pl length/2")
+    negative_maximum_fails_in_both_representations(ctx, R)
+
+
+def negative_maximum_fails_in_both_representations(ctx, R):
+    """length/2 relies on '$skip_max_list' failing for a negative maximum (its second clause then raises the domain error).
+    A maximum beyond the machine word arrives as an arbitrary-precision integer; narrowing it and treating `does not fit`
+    as `no maximum` is right for a huge positive number and wrong for a huge negative one: length(L, -(2^63)-1) raised
+    resource_error(memory). The arm for Number::Integer asks the integer for its sign."""
+    F = ctx.facts()
+    c = [p for p in F.items if re.search(r"system_calls::<impl machine::machine_state::MachineState>::skip_max_list$|MachineState>::skip_max_list$", p)]
+    if len(c) != 1:
+        raise AnchorLost("MachineState::skip_max_list (%d)" % len(c))
+    body = F.hir(c[0])["body"]
+    arms = []
+    for m in walk(body):
+        if m["k"] != "Match":
+            continue
+        for arm in m["arms"]:
+            if any(y.get("k") == "PTupleStruct" and (y.get("res", {}).get("def") or "").endswith("::Number::Integer") for y in walk(arm["pat"])):
+                arms.append(arm)
+    if not arms:
+        raise AnchorLost("skip_max_list: arm for Number::Integer")
+    ok = False
+    for arm in arms:
+        for i in walk(arm["body"]):
+            if i["k"] == "If" and any(y["k"] == "MethodCall" and y["name"] in ("sign", "is_negative", "is_positive", "signum") for y in walk(i["cond"])) and \
+                    any(y["k"] == "Assign" and y["lhs"].get("name") == "fail" for y in walk(i["then"])):
+                ok = True
+    R.ob("C49:skip_max_list:negative-arbitrary-precision-maximum-fails", ok,
+         "skip_max_list narrows an arbitrary-precision maximum and takes `does not fit` for `no maximum` without asking for its sign: length(L, N) with N below -(2^63) walks an "
+         "unbounded list instead of failing into the clause that raises domain_error(not_less_than_zero, N)", F.where(c[0]))
+
